@@ -46,7 +46,9 @@ PAYLOADS = ["'", "''", "o'x", "' OR 1=1 --", "'; DROP TABLE canary; --", "x' OR 
             ":x", "%s", "{0}", "\n", "\r\n'", "'\n--", "x" * 300, "'" * 50, "''" * 30 + "'",
             "é'ß", "中'文", "😀'", "", " ", "null", "NULL'", "a'" * 200, "x" * 260 + "' OR 1=1 --",
             "'" + "y" * 1000, "%" * 300 + "'", "{1}", "{2}", "{0}{1}{2}", "{}", "{1}' --", "%(1)s",
-            "%(arg)s", "\\1", "\\g<1>", "$1", "$2", "{args_sql[1]}", "{arg_sql}", ":1", "@p1", "?1"]
+            "%(arg)s", "\\1", "\\g<1>", "$1", "$2", "{args_sql[1]}", "{arg_sql}", ":1", "@p1", "?1",
+            # brackets of every kind, balanced and not (text-level scanners of the OUTPUT)
+            "(", ")", "a(", "f(x", "c)", "((", "))", ")(", "(()", "[", "]", "{", "}", "a(b)c", "('", "')"]
 
 
 def source_placeholders():
@@ -152,6 +154,27 @@ def templates():
         out.append((f + "-0", ("cmp", "eq", T.call(f, S()), rhs), False))
     out.append(("and-or", ("bool", "or", ("bool", "and", ("cmp", "eq", s, S()), ("cmp", "gt", T.ident("a"), T.I(1))),
                            ("un", "not", ("cmp", "eq", u, T.S("q")))), False))
+    # the hole inside compound boolean structure (groups that themselves start and end with a
+    # bracket), in the leading and in the trailing group
+    a_, b_ = T.ident("a"), T.ident("b")
+    g1 = ("bool", "or", ("cmp", "eq", s, S()), ("cmp", "gt", a_, T.I(0)))
+    g2 = ("bool", "or", ("cmp", "gt", b_, T.I(0)), ("cmp", "eq", u, T.S("k")))
+    g1c = ("bool", "or", ("cmp", "eq", s, T.S("k(")), ("cmp", "gt", a_, T.I(0)))
+    g2h = ("bool", "or", ("cmp", "gt", b_, T.I(0)), ("cmp", "eq", u, S()))
+    out.append(("not-and-of-ors-lead", ("un", "not", ("bool", "and", g1, g2)), False))
+    out.append(("not-and-of-ors-trail", ("un", "not", ("bool", "and", g1c, g2h)), False))
+    lead = ("bool", "or", ("bool", "and", ("cmp", "eq", s, S()), ("cmp", "gt", a_, T.I(0))),
+            ("bool", "and", ("cmp", "gt", b_, T.I(0)), ("cmp", "eq", u, T.S("k"))))
+    trail = ("bool", "or", ("bool", "and", ("cmp", "eq", s, T.S("k(")), ("cmp", "gt", a_, T.I(0))),
+             ("bool", "and", ("cmp", "gt", b_, T.I(0)), ("cmp", "eq", u, S())))
+    out.append(("and-of-ors-lead", ("bool", "and", ("cmp", "eq", a_, T.I(1)), lead), False))
+    out.append(("and-of-ors-trail", ("bool", "and", ("cmp", "eq", a_, T.I(1)), trail), False))
+    both = ("bool", "or", ("bool", "and", ("cmp", "eq", s, S()), ("cmp", "eq", a_, T.I(1))),
+            ("bool", "and", ("cmp", "eq", b_, T.I(1)), ("cmp", "eq", u, T.S("z"))))
+    out.append(("or-of-ands-then-and", ("bool", "and", both, ("cmp", "eq", T.ident("c"), T.I(1))), False))
+    out.append(("not-startswith-and", ("un", "not", ("bool", "and", T.call("startswith", s, S()), ("cmp", "eq", a_, T.I(1)))), True))
+    out.append(("arith-paren-hole", ("cmp", "eq", ("bin", "mul", ("bin", "add", T.call("length", S()), a_),
+                                              ("bin", "sub", b_, T.call("length", T.S("k)")))), T.I(4)), False))
     out.append(("arith-cmp", ("cmp", "eq", T.call("length", T.call("concat", s, S())), ("bin", "add", T.ident("a"), T.I(1))), False))
     return out
 
